@@ -48,23 +48,27 @@ def groups(D):
 
 
 class InnerModel:
-    """uninterpreted extensional model: same (provably equal) input -> same opaque output"""
+    """uninterpreted extensional model, possibly STATEFUL: the same (provably equal) input together with the same incoming
+    state gives the same opaque output and the same opaque new state; a different incoming state gives unrelated ones
+    (stateful=False: the state is passed through and ignored, the stateless case)"""
 
-    def __init__(self, D, out_sig, tag="M"):
-        self.D, self.out_sig, self.table, self.tag = D, out_sig, [], tag
+    def __init__(self, D, out_sig, tag="M", stateful=False):
+        self.D, self.out_sig, self.table, self.tag, self.stateful = D, out_sig, [], tag, stateful
 
     def __call__(self, x, aux=None):
         G = geom()
-        for (inp, flags, out) in self.table:
+        for n, (inp, flags, out, aux_in) in enumerate(self.table):
             if list(inp.keys()) != list(x.keys()) or flags != tuple(x.is_torus):
                 continue
+            if self.stateful and aux_in != aux:
+                continue
             if all(arr.compare(arr.lift(x[k]), inp[k], "model input")[0] == "proved" for k in inp):
-                return G.MultiImage({k: b for k, b in out}, self.D, x.is_torus), aux
+                return G.MultiImage({k: b for k, b in out}, self.D, x.is_torus), (("state-after-call", n) if self.stateful else aux)
         first = arr.lift(next(iter(x.values())))
         sp = first.dims[1:1 + self.D]
         out = [(k, arr.source(f"{self.tag}{len(self.table)}_{k[0]}{k[1]}", [c] + list(sp) + [Atom(self.D) for _ in range(k[0])])) for k, c in self.out_sig]
-        self.table.append(({k: arr.lift(v) for k, v in x.items()}, tuple(x.is_torus), out))
-        return G.MultiImage({k: b for k, b in out}, self.D, x.is_torus), aux
+        self.table.append(({k: arr.lift(v) for k, v in x.items()}, tuple(x.is_torus), out, aux))
+        return G.MultiImage({k: b for k, b in out}, self.D, x.is_torus), (("state-after-call", len(self.table) - 1) if self.stateful else aux)
 
 
 def jobs(tier):
@@ -76,6 +80,10 @@ def jobs(tier):
     if tier != "quick":
         for hi in range(8):
             out.append(("gvc.props.c10", "ob_group_average", dict(D=3, gname="C2^3", sig=[(0, 0), (1, 1)], hi=hi)))
+    # a stateful inner model (aux_data / eqx.nn.State): every group element's call must see the SAME incoming state
+    for gname, his in [("B_2", [1, 4, 6]), ("<r90> (identity last)", [0]), ("<flip> (identity last)", [0])]:
+        for hi in his:
+            out.append(("gvc.props.c10", "ob_group_average", dict(D=2, gname=gname, sig=[(0, 0), (1, 0)], hi=hi, stateful=True)))
     out.append(("gvc.props.c10", "ob_ga_off", dict(D=2)))
     orders = [[(0, 0), (0, 1), (1, 0)], [(1, 0), (0, 0), (0, 1)], [(0, 1), (1, 0), (0, 0)], [(1, 0)], [(0, 0), (1, 0)]]
     for o in orders:
@@ -92,7 +100,7 @@ def _f(v):
     return "[" + " ".join(f"{a}{b}" for a, b in v) + "]"
 
 
-def ob_group_average(D, gname, sig, hi):
+def ob_group_average(D, gname, sig, hi, stateful=False):
     Gm, Mm = geom(), Md()
     arr.ENUM_SMALL[0] = 3
     ops = groups(D)[gname]
@@ -104,17 +112,19 @@ def ob_group_average(D, gname, sig, hi):
     out_sig = [(k, Atom(sint(f"o{k[0]}{k[1]}", W.pre))) for k in reversed(sig)]
     flags = (True, False, True)[:D]
     structure = dict(D=D, group=gname, order=len(ops), h=h.tolist(), sig=sig)
-    name = f"C10/GroupAverage/D={D},group={gname},sig={_f(sig)},h#{hi}"
+    name = f"C10/GroupAverage/D={D},group={gname},sig={_f(sig)},h#{hi}" + (",stateful-inner-model" if stateful else "")
+    if stateful:
+        structure["inner_model"] = "stateful (output and new state are opaque functions of input and incoming state)"
 
     def closed():
         keys = {tuple(g.reshape(-1)) for g in ops}
         return all(tuple((a @ b).reshape(-1)) in keys for a in ops for b in ops) and all(tuple(a.T.reshape(-1)) in keys for a in ops)
 
     def run():
-        inner = InnerModel(D, out_sig)
+        inner = InnerModel(D, out_sig, stateful=stateful)
         ga = Mm.GroupAverage(inner, list(ops), always_average=True)
-        y0, _ = ga(Gm.MultiImage(dict(X), D, flags))
-        yh, _ = ga(Gm.MultiImage({k: act_sym(X[k], D, k[0], k[1], h, lead=1) for k in sig}, D, rotated_flags(flags, h)))
+        y0, _ = ga(Gm.MultiImage(dict(X), D, flags), "STATE0" if stateful else None)
+        yh, _ = ga(Gm.MultiImage({k: act_sym(X[k], D, k[0], k[1], h, lead=1) for k in sig}, D, rotated_flags(flags, h)), "STATE0" if stateful else None)
         return y0, yh
 
     def post(res):
@@ -125,7 +135,7 @@ def ob_group_average(D, gname, sig, hi):
         return cmp_blocks(yh, spec, D, rotated_flags(flags, h), None, "GA(h.x) vs h.GA(x)")
 
     o = guard(name + "/ensures:equivariant", "ensures", lambda: all_paths(W.pre, run, post), structure)
-    o["replay"] = dict(scenario="group_average", D=D, gname=gname, sig=sig, hi=hi)
+    o["replay"] = dict(scenario="group_average", D=D, gname=gname, sig=sig, hi=hi, stateful=stateful)
     obs = [o]
     if hi == 1 and gname == "B_2" and sig[0] == (0, 0):
         obs.append(cover(name + "/cover:pre", W.pre, structure))
